@@ -1061,15 +1061,112 @@ def union_case_for_value(spec, value, env: Env):
                     for x in cs[1]]
             if any(type(value) is type(v) and value == v for v in vals):
                 return c
+    by_class = {}
     for c in spec[1]:
         rc = runtime_class(c, env)
-        if rc is not None and type(value) is rc:
-            return c
-    for c in spec[1]:
-        rc = runtime_class(c, env)
-        if rc is not None and isinstance(value, rc):
-            return c
+        if rc is not None:
+            by_class.setdefault(rc, c)
+    for klass in type(value).__mro__:   # documented: "the selected class that appears first in .mro() list"
+        if klass in by_class:
+            return by_class[klass]
     for c in spec[1]:
         if strip(c)[0] in ("path", "pathlike") and isinstance(value, pathlib.PurePath):
             return c
     raise LookupError(f"no union case for {value!r}")
+
+
+# =========================================================================================== canonical structure
+_ADDR = re.compile(r"0x[0-9a-fA-F]+")
+
+
+def canon(o, _depth=0):  # noqa: C901, PLR0911, PLR0912
+    """Structural, type-exact, identity-free description of an object (also of the exotic soup classes);
+    two separately built copies of one value spec have equal canons."""
+    if _depth > 60:
+        return ("deep",)
+    tn = type(o).__name__
+    if isinstance(o, str) and " at 0x" in o:
+        return (tn, _ADDR.sub("0x?", o))  # str(<some object>) made by a lax loader: the address is not content
+    if o is None or isinstance(o, (bool, int, str, bytes, bytearray)):
+        return (tn, o if not isinstance(o, bytearray) else bytes(o))
+    if isinstance(o, float):
+        return (tn, repr(o))
+    if isinstance(o, complex):
+        return (tn, repr(o.real), repr(o.imag))
+    if isinstance(o, Decimal):
+        return (tn, str(o.as_tuple()))
+    if isinstance(o, (list, tuple, collections.deque)):
+        if hasattr(o, "_fields"):
+            return (tn, tuple((f, canon(getattr(o, f), _depth + 1)) for f in o._fields))
+        return (tn, tuple(canon(x, _depth + 1) for x in o))
+    if isinstance(o, (set, frozenset)):
+        return (tn, tuple(sorted((canon(x, _depth + 1) for x in o), key=repr)))
+    if isinstance(o, dict):
+        items = sorted(((canon(k, _depth + 1), canon(v, _depth + 1)) for k, v in o.items()), key=repr)
+        extra = (repr(o.default_factory),) if isinstance(o, collections.defaultdict) else ()
+        return (tn, tuple(items), *extra)
+    if isinstance(o, codec.CustomMapping):
+        return (tn, canon(o._d, _depth + 1))
+    if isinstance(o, (codec.ItemsOnly, codec.NoLenIterable)):
+        return (tn, canon(o._items, _depth + 1))
+    if isinstance(o, codec.Opaque):
+        return (tn,)
+    if isinstance(o, types.GeneratorType):
+        return ("generator",)
+    if isinstance(o, io.BytesIO):
+        return (tn, o.getvalue())
+    if isinstance(o, re.Pattern):
+        return (tn, o.pattern, o.flags)
+    if isinstance(o, enum.Enum):
+        return ("enum", type(o).__qualname__, o.name if o.name is not None else o.value)
+    if dataclasses.is_dataclass(o) and not isinstance(o, type):
+        return (tn, tuple((f.name, canon(getattr(o, f.name, "<unset>"), _depth + 1)) for f in dataclasses.fields(o)))
+    if hasattr(type(o), "__attrs_attrs__"):
+        return (tn, tuple((f.name, canon(getattr(o, f.name, "<unset>"), _depth + 1)) for f in type(o).__attrs_attrs__))
+    if isinstance(o, BaseException):
+        return (tn, canon(o.args, _depth + 1))
+    r = repr(o)
+    if " at 0x" in r:
+        return (tn,)
+    return (tn, r)
+
+
+def canon_eq(a, b) -> bool:
+    return canon(a) == canon(b)
+
+
+def dumped_eq(spec, a, b, env: Env) -> bool:  # noqa: C901, PLR0911
+    """Equality of two dumped data for type ``spec`` where the element order of dumped *sets* is not significant
+    (a set has no order; the docs fix none for its dumped tuple)."""
+    s = strip(spec)
+    tag = s[0]
+    if type(a) is not type(b):
+        return False
+    try:
+        if tag in ("set", "frozenset") or (tag == "abc" and s[1] in ("Set", "MutableSet")):
+            inner = s[2] if tag == "abc" else s[1]
+            if len(a) != len(b):
+                return False
+            rest = list(b)
+            for x in a:
+                for i, y in enumerate(rest):
+                    if dumped_eq(inner, x, y, env):
+                        del rest[i]
+                        break
+                else:
+                    return False
+            return True
+        if tag in ("list", "vtuple", "deque", "abc"):
+            inner = s[2] if tag == "abc" else s[1]
+            return len(a) == len(b) and all(dumped_eq(inner, x, y, env) for x, y in zip(a, b))
+        if tag == "tuple":
+            return len(a) == len(b) == len(s[1]) and all(dumped_eq(t, x, y, env) for t, x, y in zip(s[1], a, b))
+        if tag in ("dict", "mapping", "mutablemapping", "defaultdict") and isinstance(a, dict):
+            if len(a) != len(b):
+                return False
+            return all(any(canon_eq(k, k2) and dumped_eq(s[2], v, v2, env) for k2, v2 in b.items()) for k, v in a.items())
+        if tag == "optional" and a is not None:
+            return dumped_eq(s[1], a, b, env)
+    except Exception:  # noqa: BLE001  (the data does not have the shape of the type: fall back to exact structure)
+        return canon_eq(a, b)
+    return canon_eq(a, b)
